@@ -33,6 +33,8 @@ _cur = {}
 def _post(what):
     def post(snap, result, exc, args, kwargs):
         rec = _cur["rec"]
+        if _cur.get("muted"):
+            return
         f = mon2d.facts(snap)
         if f is None or not mon2d.levels_ok(f):
             rec.skip("optimal.objective", "out-of-domain")
@@ -150,6 +152,12 @@ def cases(shard, nshards, seed, tier):
             continue
         n, pairs = knotted_random(rng, big=(i % 5 == 0))
         yield {"family": "random-knotted", "n": n, "pairs": pairs}
+    # a solver failure earlier in the process must not influence later, healthy conversions
+    for name, n, pairs in gen2d.hostile():
+        if name in ("H-type-short-first", "triangle-short-first", "kissing", "pk-multiloop", "short-first-1-3", "short-first-2-4"):
+            for beh in ("raise", "notsolved", "infeasible"):
+                if mine():
+                    yield {"family": "fault-then-healthy", "n": n, "pairs": pairs, "behaviour": beh}
     if tier == "thorough" and mine():
         yield {"family": "corpus-bpseq", "file": "tests/6EK0-L5-L8.bpseq"}
 
@@ -169,6 +177,20 @@ def run_case(case, rec):
             pass
         return
     n, pairs = case["n"], [tuple(p) for p in case["pairs"]]
+    if case["family"] == "fault-then-healthy":
+        from vmon.props import c13
+
+        _cur["muted"] = True  # the faulty conversion legitimately returns FCFS (C13 judges it)
+        try:
+            for cfg in ("cbc", "highs"):
+                with c13._Inject(cfg, case["behaviour"]) as inj:
+                    try:
+                        mon2d.make_bpseq(n, pairs).dot_bracket
+                        mon2d.make_bpseq(n, pairs).convert_to_dot_bracket(inj.explicit)
+                    except Exception:
+                        pass
+        finally:
+            _cur["muted"] = False
     b = mon2d.make_bpseq(n, pairs)
     f = mon2d.facts(mon2d.snapshot(b))
     rec.mark_nontrivial(f["knotted"])
